@@ -37,6 +37,16 @@ MUTATIONS = [
      ("            EOF if first.is_none() => Kind::Eof,", "            EOF => Kind::Eof,"), r"verus_lexer_next_token"),
     ("lexer_ident_stops_inside_multibyte", "C13", "fea-rs/src/parse/lexer.rs",
      ("                b if is_special(b) => break,\n                _ => (),", "                b if is_special(b) => break,\n                0xA0 => break,\n                _ => (),"), r"verus_lexer_(eat_ident|next_token|ident)"),
+    ("plm_new_sorts_by_from_only", "C08", "fontdrasil/src/piecewise_linear_map.rs",
+     ("        mappings.sort();", "        mappings.sort_by_key(|(from, _)| *from);"), r"c08_plm_new_sorted_permutation_3"),
+    ("plm_reverse_does_not_resort", "C08", "fontdrasil/src/piecewise_linear_map.rs",
+     ("        PiecewiseLinearMap::new(mappings)\n    }\n\n    /// An iterator over (from, to) values.", "        let (from, to): (Vec<_>, Vec<_>) = { let m: Vec<(OrderedFloat<f64>, OrderedFloat<f64>)> = mappings; m.into_iter().unzip() };\n        PiecewiseLinearMap { from, to }\n    }\n\n    /// An iterator over (from, to) values."), r"c08_plm_reverse_(well_formed|inverts)"),
+    ("rank_count_ones_last_word_only", "C16", "fontir/src/feature_variations.rs",
+     ("        self.0.iter().copied().map(u64::count_ones).sum()", "        self.0.last().map(|w| w.count_ones()).unwrap_or(0)"), r"c16_rank_sort_key_orders_by_rule_count_"),
+    ("vertical_origin_rounds_half_away_from_zero", "C19", "fontir/src/ir.rs",
+     ("            .unwrap_or(metrics.os2_typo_ascender.into_inner())\n            .ot_round()", "            .unwrap_or(metrics.os2_typo_ascender.into_inner())\n            .round()\n            .ot_round()"), r"c19_vertical_origin_in_range_is_exact_rounding"),
+    ("glyph_height_wraps", "C19", "fontir/src/ir.rs",
+     ("                metrics.os2_typo_ascender.into_inner() - metrics.os2_typo_descender.into_inner()\n            })\n            .ot_round()", "                metrics.os2_typo_ascender.into_inner() - metrics.os2_typo_descender.into_inner()\n            })\n            .round() as i64 as u16"), r"c19_glyph_height_out_of_range_never_wraps"),
     ("rank_shift_carry_into_bit_62", "C16", "fontir/src/feature_variations.rs",
      ("            *val |= carry_bit << 63;", "            *val |= carry_bit << 62;"), r"c16_rank_shift_"),
     ("rank_bitor_assign_front_aligned", "C16", "fontir/src/feature_variations.rs",
